@@ -61,7 +61,8 @@ def run(ctx):
     n = ctx.scale(900, 25000)
     rng = ctx.rng
     cases = [semrun.make_case(rng) for _ in range(n)]
-    ctx.stats['_rule'] = ('well-formed G-doc documents in random layouts; every occurrence of a unique literal word in the output must carry the '
+    cases += [semrun.crlf_variant(c) for c in cases[::5]]
+    ctx.stats['_rule'] = ('well-formed G-doc documents in random layouts, a fifth of them also with CR LF line breaks; every occurrence of a unique literal word in the output must carry the '
                           'offsets where the AST renderer put it; every position-counting token of the final token list must be a literal slice of the '
                           'source or a table replacement; non-trivial = at least 3 literal words in the output')
     results = semrun.run_cases(ctx, cases)
